@@ -48,3 +48,17 @@ Proof.
   - match goal with E : (if ?ok then _ else _) = OAllow _ |- _ => destruct ok; [|discriminate E]; unfold allow in E; inversion E; subst end.
     eapply token_headers_keys; eassumption.
 Qed.
+
+(* ---- the material a denial is made of does not depend on the secrets ---- *)
+Definition with_secret (c : cfg) (s : string) : cfg :=
+  {| client_id := client_id c; client_secret := s; callback_uri := callback_uri c; callback := callback c;
+     auth_uri := auth_uri c; token_uri := token_uri c; scopes := scopes c; cookie_prefix := cookie_prefix c;
+     id_token := id_token c; access_token := access_token c; logout := logout c |}.
+Definition with_verifier (g : gen_out) (v : string) : gen_out :=
+  {| g_sid := g_sid g; g_nonce := g_nonce g; g_state := g_state g; g_verifier := v; g_challenge := g_challenge g |}.
+
+Theorem public_material_ignores_secrets c s v g :
+  authorization_url (with_secret c s) (with_verifier g v) = authorization_url c g /\
+  set_cookie_header (cookie_prefix (with_secret c s)) (g_sid (with_verifier g v)) SessionCookie = set_cookie_header (cookie_prefix c) (g_sid g) SessionCookie /\
+  logout (with_secret c s) = logout c.
+Proof. repeat split; reflexivity. Qed.
